@@ -126,7 +126,20 @@ func (u *UnverifiedBlockBody) GetRoundRandomSeed() int64 {
 
 // Clone returns a clone of the UnverifiedBlockBody
 func (u *UnverifiedBlockBody) Clone() *UnverifiedBlockBody {
-	cloneU := *u
+	// field by field: RoundRandomSeed is written atomically (SetRoundRandomSeed), a plain
+	// copy of the whole struct would read it non-atomically
+	cloneU := UnverifiedBlockBody{
+		VersionField:                   u.VersionField,
+		CreationDateField:              u.CreationDateField,
+		LatestFinalizedMagicBlockHash:  u.LatestFinalizedMagicBlockHash,
+		LatestFinalizedMagicBlockRound: u.LatestFinalizedMagicBlockRound,
+		PrevHash:                       u.PrevHash,
+		MinerID:                        u.MinerID,
+		Round:                          u.Round,
+		RoundRandomSeed:                u.GetRoundRandomSeed(),
+		RoundTimeoutCount:              u.RoundTimeoutCount,
+		ClientStateHash:                u.ClientStateHash,
+	}
 	cloneU.PrevBlockVerificationTickets = copyVerificationTickets(u.PrevBlockVerificationTickets)
 
 	cloneU.Txns = make([]*transaction.Transaction, 0, len(u.Txns))
@@ -160,11 +173,11 @@ type Block struct {
 	stateStatus           int8
 	stateStatusMutex      sync.RWMutex `json:"-" msgpack:"-"`
 	stateMutex            sync.RWMutex `json:"-" msgpack:"-"`
-	blockState            int8
+	blockState            int32 // accessed atomically
 	isNotarized           bool
 	isFinalised           bool         // set this field when the block is finalised
 	ticketsMutex          sync.RWMutex `json:"-" msgpack:"-"`
-	verificationStatus    int
+	verificationStatus    int32 // accessed atomically
 	RunningTxnCount       int64           `json:"running_txn_count"`
 	uniqueBlockExtensions map[string]bool `json:"-" msgpack:"-"`
 	uniqueBlockExtMutex   sync.RWMutex    `json:"-" msgpack:"-"`
@@ -557,12 +570,12 @@ func (b *Block) Clear() {
 
 /*SetBlockState - set the state of the block */
 func (b *Block) SetBlockState(blockState int8) {
-	b.blockState = blockState
+	atomic.StoreInt32(&b.blockState, int32(blockState))
 }
 
 /*GetBlockState - get the state of the block */
 func (b *Block) GetBlockState() int8 {
-	return b.blockState
+	return int8(atomic.LoadInt32(&b.blockState))
 }
 
 /*GetClients - get all the clients of this block */
@@ -668,12 +681,12 @@ func (b *Block) IsBlockFinalised() bool {
 
 /*SetVerificationStatus - set the verification status of the block by this node */
 func (b *Block) SetVerificationStatus(status int) {
-	b.verificationStatus = status
+	atomic.StoreInt32(&b.verificationStatus, int32(status))
 }
 
 /*GetVerificationStatus - get the verification status of the block */
 func (b *Block) GetVerificationStatus() int {
-	return b.verificationStatus
+	return int(atomic.LoadInt32(&b.verificationStatus))
 }
 
 /*UnknownTickets - compute the list of unknown tickets from a given set of tickets */
@@ -755,19 +768,26 @@ func (b *Block) SetPrevBlockVerificationTickets(bvt []*VerificationTicket) {
 
 // Clone returns a clone of the block instance
 func (b *Block) Clone() *Block {
+	// tickets, previous tickets and the notarized flag are guarded by ticketsMutex
+	b.ticketsMutex.RLock()
+	body := b.UnverifiedBlockBody.Clone()
+	tickets := copyVerificationTickets(b.VerificationTickets)
+	isNotarized := b.isNotarized
+	b.ticketsMutex.RUnlock()
+
 	clone := &Block{
-		UnverifiedBlockBody: *b.UnverifiedBlockBody.Clone(),
-		VerificationTickets: copyVerificationTickets(b.VerificationTickets),
+		UnverifiedBlockBody: *body,
+		VerificationTickets: tickets,
 		HashIDField:         b.HashIDField,
 		Signature:           b.Signature,
 		ChainID:             b.ChainID,
 		RoundRank:           b.RoundRank,
 		PrevBlock:           b.PrevBlock,
 		RunningTxnCount:     b.RunningTxnCount,
-		stateStatus:         b.stateStatus,
-		blockState:          b.blockState,
-		isNotarized:         b.isNotarized,
-		verificationStatus:  b.verificationStatus,
+		stateStatus:         b.GetStateStatus(),
+		blockState:          int32(b.GetBlockState()),
+		isNotarized:         isNotarized,
+		verificationStatus:  int32(b.GetVerificationStatus()),
 		StateChangesCount:   b.StateChangesCount,
 	}
 	if b.MagicBlock != nil {
